@@ -282,6 +282,28 @@ func (s *Solver) CheckGoal(goal *Term, want []string) (string, map[string]string
 	return s.CheckGoalT(goal, want, s.timeout)
 }
 
+// CheckGoalQF: like CheckGoalT but without the quantified hypotheses (sound:
+// fewer hypotheses); most safety / arithmetic obligations are decided here.
+func (s *Solver) CheckGoalQF(goal *Term, ms int) string {
+	s.Push()
+	s.assertNow(Not(goal))
+	r := s.CheckSatT(ms)
+	s.Pop()
+	return r
+}
+
+// HasDeferred: are there quantified hypotheses on the stack?
+func (s *Solver) HasDeferred() bool {
+	for _, fr := range s.stack {
+		for _, c := range fr {
+			if c.deferred {
+				return true
+			}
+		}
+	}
+	return false
+}
+
 func (s *Solver) CheckGoalT(goal *Term, want []string, ms int) (string, map[string]string) {
 	s.Push()
 	// quantified hypotheses take part in obligation checks only
